@@ -177,14 +177,14 @@ PROPS = {
               # the full machines (machine-level internal tables, action+guard rows on exit points), which back11 rejects at
               # compile time: the other six configurations
               [dict(zoo=z, cfgs=['b', 'bc', 'bq', 'm', 'mf', 'mc'], ops=pe_all(z), act_in_trace=True) for z in ('flat', 'ortho', 'hier2')],
-        thorough=[dict(zoo=z, cfgs=ALL, ops=pe_all(z) + ['eq:1', 'xq'], compare_ids=True) for z in ('flat_c', 'hier2_c', 'ortho_c', 'entry_c', 'histN', 'histA', 'histS', 'hier3')] +
+        thorough=[dict(zoo=z, cfgs=ALL, ops=pe_all(z) + ['eq:1', 'xq'], compare_ids=True) for z in ('flat_c', 'hier2_c', 'ortho_c', 'entry_c', 'histN', 'histA', 'histS', 'hier3_c')] +
                  [dict(zoo='compl', cfgs=ALL, ops=['start', 'stop', 'pe:1', 'pe:2', 'pe:3', 'pe:4', 'eq:4', 'eq:1', 'xq', 'xs'], qbound=2),
                   dict(zoo='defer_c', cfgs=ALL, ops=['start', 'pe:1', 'pe:2', 'pe:3', 'pe:4', 'pe:5', 'eq:3', 'xq'], qbound=3),
                   dict(zoo='block', cfgs=ALL, ops=['start', 'pe:1', 'pe:2', 'pe:3', 'pe:4', 'pe:5', 'pe:6', 'eq:4', 'xq'], qbound=2),
                   dict(zoo='hier2_c', cfgs=ALL, ops=['start', 'pe:1', 'pe:2', 'pe:3', 'eq:1', 'xq'], submits=1, guards=2, qbound=2),
                   dict(zoo='flat_c', cfgs=ALL, ops=['start', 'pe:1', 'pe:2', 'pe:4', 'eq:3', 'xq', 'xs'], submits=2, guards=1, qbound=2)] +
                  [dict(zoo='sw_' + p, cfgs=ALL, ops=pe_all('sw_' + p) + ['eq:1', 'xq'], act_in_trace=True) for p in ('after_exit', 'before', 'after_action', 'after_entry')] +
-                 [dict(zoo=z, cfgs=['b', 'bc', 'bq', 'm', 'mf', 'mc'], ops=pe_all(z) + ['eq:1', 'xq'], act_in_trace=True) for z in ('flat', 'ortho', 'hier2', 'entry')] +
+                 [dict(zoo=z, cfgs=['b', 'bc', 'bq', 'm', 'mf', 'mc'], ops=pe_all(z) + ['eq:1', 'xq'], act_in_trace=True) for z in ('flat', 'ortho', 'hier2', 'entry', 'hier3', 'hier4')] +
                  [dict(zoo='wide', cfgs=ALL, ops=pe_all('wide'), act_in_trace=True, compare_ids=True)],
         rule='product exploration of b, bc, bq, b11, m, mf, mc on machines of the common feature subset: every reachable product state x event x '
              'guard valuation (x one nested submission); an execution is non-trivial when a callback ran',
